@@ -68,6 +68,18 @@ async fn round(log: &Log, tap: &FrameTap, r: &mut Rng, i: u64) {
     let n = r.range(3, 8);
     let mut hs = Vec::new();
     let mut descr = Vec::new();
+    // now and then the very first request of the new session gives up after its stream was opened (a host name the
+    // destination header cannot carry, through the HTTP front-end); the next request reuses that session
+    if r.chance(1, 2) {
+        descr.push(json!({"via": "http", "dest": "host name of 300 bytes", "then": "echo"}));
+        if let Ok(mut c) = tokio::net::TcpStream::connect(&http).await {
+            let host = "h".repeat(300);
+            let _ = c.write_all(format!("CONNECT {}:80 HTTP/1.1\r\nHost: {}:80\r\n\r\n", host, host).as_bytes()).await;
+            let mut buf = [0u8; 256];
+            let _ = tokio::time::timeout(Duration::from_secs(3), c.read(&mut buf)).await;
+        }
+        app("socks5", socks.clone(), echo.addr, vec![100], 1).await;
+    }
     for _ in 0..n {
         let via = if r.chance(1, 3) { "http" } else { "socks5" };
         let dest = match r.below(6) { 0 => refusing, 1 => greet.addr, _ => echo.addr };
@@ -79,8 +91,18 @@ async fn round(log: &Log, tap: &FrameTap, r: &mut Rng, i: u64) {
         if r.chance(1, 2) { tokio::time::sleep(Duration::from_millis(r.range(1, 40))).await; }
     }
     for h in hs { let _ = h.await; }
-    // a quiet period: keep-alive exchanges continue
-    tokio::time::sleep(Duration::from_millis(400)).await;
+    // a quiet period: keep-alive exchanges continue; frames still under way land (up to 3 s)
+    tokio::time::sleep(Duration::from_millis(300)).await;
+    for _ in 0..60 {
+        let balanced = {
+            let g = tap.0.lock().unwrap();
+            let cnt = |d: &str, client: i64, cmd: i64| g.events.iter().filter(|e| e["sess"].as_u64().unwrap_or(0) > base && e["d"] == d && e["client"] == client && e["cmd"] == cmd).count();
+            [1i64, 2, 3, 4].iter().all(|c| cnt("tx", 1, *c) == cnt("rx", 0, *c)) && [2i64, 3, 7].iter().all(|c| cnt("tx", 0, *c) == cnt("rx", 1, *c))
+        };
+        if balanced { break; }
+        tokio::time::sleep(Duration::from_millis(50)).await;
+    }
+    tokio::time::sleep(Duration::from_millis(100)).await;
     let mut evs = std::mem::take(&mut tap.0.lock().unwrap().events);
     let sessions: std::collections::BTreeSet<(i64, i64)> = evs.iter().filter(|e| e["sess"].as_u64().unwrap_or(0) > base).map(|e| (e["sess"].as_i64().unwrap(), e["client"].as_i64().unwrap())).collect();
     for (s, c) in sessions { evs.push(json!({"ev": "quiet", "sess": s, "client": c})); }
